@@ -35,18 +35,26 @@ Fixpoint all2 (f : N -> N -> bool) (a b : list N) : bool :=
   | _, _ => false
   end.
 
-(* the scale is a subnormal f32: its own rounding error is then comparable to the step (e.g. the
-   single input 151 * 2^-149 gives scale 2^-149 and round trip 255 * 2^-149), so "one step of the
-   f32 scale" is not a meaningful tolerance there; such cases only have to produce outputs *)
-Definition subnormal_scale (bits : N) : bool :=
-  (Z.land (Z.shiftr (Z.of_N bits) 23) 255 =? 0) && negb (Z.land (Z.of_N bits) 8388607 =? 0).
+(* The returned scale is zero or a subnormal f32 although the inputs are not all zero: the true step
+   range/255 is below 2^-126, so the f32 scale's own rounding error is comparable to the step or
+   the scale underflows to 0 (the single input 151 * 2^-149 gives scale 2^-149 and a round trip of
+   255 * 2^-149; 56 * 2^-149 gives scale 0).  "One step of the f32 scale" is not a meaningful
+   tolerance there.  The exemption applies only when every |x| <= 2^-118 (otherwise such a scale
+   would itself be wrong and the inequality is required). *)
+Definition tiny_input (xbits : N) : bool :=
+  match f32_decode xbits with
+  | Some (mx, ex) => Z.abs mx * 2 ^ (ex + 149) <=? 2 ^ 31
+  | None => false
+  end.
+Definition subnormal_scale (c : dq_case) : bool :=
+  (Z.land (Z.shiftr (Z.of_N (d_scale c)) 23) 255 =? 0) && forallb tiny_input (d_x c).
 
 Definition prop_ok (c : case) : bool :=
   match d_y c, f32_decode (d_scale c) with
   | Some ys, Some (ms, es) =>
       (0 <=? ms) && forallb (fun y => (y <=? 255)%N) ys && (d_zp c <=? 255)%N &&
       (Nat.eqb (length ys) (length (d_x c))) &&
-      (subnormal_scale (d_scale c) || all2 (within_step ms es (Z.of_N (d_zp c))) (d_x c) ys)
+      (subnormal_scale c || all2 (within_step ms es (Z.of_N (d_zp c))) (d_x c) ys)
   | _, _ => false
   end.
 Definition agree := prop_ok.
